@@ -30,6 +30,15 @@ ALLOWED_AXIOMS = {
     "FunctionalExtensionality.functional_extensionality_dep",
 }
 
+# primitive 63-bit integers / floats of the standard library (used by the `interval` tactic of
+# CoqInterval); declared by Coq itself, listed per theorem in the evidence
+ALLOWED_PREFIXES = ("Uint63.", "PrimInt63.", "PrimFloat.", "FloatAxioms.", "FloatClass.", "Sint63.")
+
+
+def axiom_allowed(a):
+    return a in ALLOWED_AXIOMS or a.startswith(ALLOWED_PREFIXES)
+
+
 FORBIDDEN = re.compile(
     r"\b(Admitted|admit|Axiom|Axioms|Parameter|Parameters|Conjecture|Conjectures)\b"
     r"|Unset\s+Guard|bypass_check|type-in-type|impredicative-set|Admit\s+Obligations"
@@ -219,7 +228,7 @@ def proof_obligations(prop_modules, tier, workdir):
                     failures.append("no Print Assumptions output for %s" % n)
                     continue
                 axioms["%s.%s" % (m, n)] = ax
-                extra = [a for a in ax if a not in ALLOWED_AXIOMS]
+                extra = [a for a in ax if not axiom_allowed(a)]
                 if extra:
                     failures.append("theorem %s depends on non-allow-listed axioms %s" % (n, extra))
                 else:
